@@ -1,7 +1,7 @@
 (* Properties.v — the property theorems, and nothing else.  Each is closed by [exact] of a lemma
    proved in the Proofs* files and followed by Print Assumptions. *)
 From Coq Require Import Permutation.
-From Godi Require Import Base GDfs GKahn GKahnComplete GraphSpec Conc Web Model Check ProofsGraph ProofsConc ProofsWeb ProofsRegistry ProofsRuntime.
+From Godi Require Import Base GDfs GKahn GKahnComplete GraphSpec Conc Web Model Check ProofsGraph ProofsConc ProofsWeb ProofsRegistry ProofsRuntime ProofsClosed ProofsTerm.
 
 (* ---------------------------------------------------------------- C01 *)
 Theorem C01_resolving_a_singleton_is_a_table_read : forall fuel rs h d,
@@ -65,6 +65,20 @@ Theorem C05_build_rejects_cycles : forall c invs ord,
   has_cycle c = true -> build c invs ord = (invs, [], inr ECircular).
 Proof. exact build_rejects_cycle. Qed.
 Print Assumptions C05_build_rejects_cycles.
+
+(* "consequently every resolution on a successfully built provider terminates": on a well-formed registration
+   set whose dependency graph (groups expanded) passed the cycle check, the fuelled resolution never reports
+   exhaustion once the fuel exceeds a bound that depends on the set only - for every state, scope and request *)
+Theorem C05_acyclic_sets_resolve_in_bounded_depth : forall c, wf_coll c -> has_cycle c = false ->
+  exists N, forall fuel rs h d, N <= fuel -> p_descs (rs_p rs) = c -> In d c -> snd (resolve_d fuel rs h d) <> RFuel.
+Proof. exact acyclic_collection_terminates. Qed.
+Print Assumptions C05_acyclic_sets_resolve_in_bounded_depth.
+
+Theorem C05_a_decreasing_rank_bounds_the_recursion : forall c (rank : desc -> nat),
+  (forall d d', In d c -> callee c d d' -> rank d' < rank d) ->
+  forall fuel rs h d, p_descs (rs_p rs) = c -> In d c -> rank d < fuel -> snd (resolve_d fuel rs h d) <> RFuel.
+Proof. exact resolve_never_out_of_fuel. Qed.
+Print Assumptions C05_a_decreasing_rank_bounds_the_recursion.
 
 Theorem C05_reference_verdict_exact_on_every_history : forall ops,
   acyclic (grun ops) = true <-> forall u, In u (dg_nodes (grun ops)) -> ~ on_cycle (GraphSpec.succ (grun ops)) u.
@@ -187,6 +201,24 @@ Theorem C13_closed_provider_refuses : forall w pi t n,
   step w (OResolve pi 0 t n) = (w, [], RErr EProviderDisposed []).
 Proof. exact closed_provider_refuses. Qed.
 Print Assumptions C13_closed_provider_refuses.
+
+(* over whole histories: once closed, closed for ever - whatever operations come in between *)
+Theorem C13_closed_stays_closed_over_every_history : forall ops w pi k,
+  closed_in w pi k -> closed_in (fst (run_from w ops)) pi k.
+Proof. exact closed_stays_closed. Qed.
+Print Assumptions C13_closed_stays_closed_over_every_history.
+
+Theorem C13_closed_scope_refuses_for_ever : forall ops w pi h t n,
+  h <> 0 -> t <> T_NIL -> closed_in w pi h ->
+  let w' := fst (run_from w ops) in step w' (OResolve pi h t n) = (w', [], RErr EScopeDisposed []).
+Proof. exact closed_scope_refuses_forever. Qed.
+Print Assumptions C13_closed_scope_refuses_for_ever.
+
+Theorem C13_close_closes : forall w pi h ord,
+  pi < length (w_provs w) -> h <> 0 -> h < length (p_scopes (get_prov w pi)) ->
+  closed_in (fst (fst (step w (OClose pi h ord)))) pi h.
+Proof. exact close_makes_closed. Qed.
+Print Assumptions C13_close_closes.
 
 (* ---------------------------------------------------------------- C14 *)
 Theorem C14_closed_scope_holds_nothing : forall fuel ord p h,
